@@ -1813,7 +1813,11 @@ class Lowering:
             for idx, p in enumerate(pv):
                 nm = p.get('name') or ('arg%d' % idx)
                 pt = self.parse_type(p['type'])
-                args.append(('*' + nm) if pt.kind == 'ref' else nm)
+                if pt.kind == 'ptr' and pt.to.kind == 'fn':
+                    # function pointers whose signature mentions references: same ABI, different C++ type
+                    args.append('reinterpret_cast<%s>(%s)' % (p['type']['qualType'], nm))
+                else:
+                    args.append(('*' + nm) if pt.kind == 'ref' else nm)
             name = d['name']
             targs = [a for a in d.get('inner', []) if a.get('kind') == 'TemplateArgument']
             tsuffix = ''
